@@ -76,7 +76,11 @@ def main(argv=None):
                 if args.replay:
                     cmd.append(os.path.abspath(args.replay))
                 log = open(out + '.log', 'w')
-                procs[s] = (subprocess.Popen(cmd, env=env, stdout=log, stderr=subprocess.STDOUT, cwd=common.VERIF_ROOT), time.time(), log, out)
+                env_s = env
+                if hasattr(mod, 'shard_env'):
+                    env_s = dict(env)
+                    env_s.update(mod.shard_env(s, args.tier))
+                procs[s] = (subprocess.Popen(cmd, env=env_s, stdout=log, stderr=subprocess.STDOUT, cwd=common.VERIF_ROOT), time.time(), log, out)
             time.sleep(0.05)
             for s, (p, started, log, out) in list(procs.items()):
                 rc = p.poll()
